@@ -167,6 +167,66 @@ def _purity_job(job):
     return fails
 
 
+SEQ_PAIRS = [
+    ({"name": "hello world"}, {"name": "hello there"}),                                    # one-line string edit
+    ({"text": "line one\nline two\n"}, {"text": "line one\nline 2\nmore\n"}),             # edit inside a multi-line string
+    ({"k": [1, 2, 3]}, {"k": [1, 3, 4]}),
+    ({"a": "x", "c": [1]}, {"b": "x", "c": []}),                                           # renamed key, emptied list
+    ({"v": 1, "w": "1"}, {"v": "1", "w": 1}),                                              # kinds swapped
+    (["abc", "def"], ["abd", "def", "ghi"]),
+    ({"n": None, "t": True}, {"n": 0, "t": False}),
+    ({"s": "", "q": "it's \"q\""}, {"s": "new\nlines", "q": "its q"}),                       # empty -> multi-line, quotes
+    ({"deep": {"er": {"x": "end"}}}, {"deep": {"er": {"x": "ends", "y": [[]]}}}),
+]
+
+
+def _render(fmt, pair, color=False):
+    import graphtage
+    from graphtage import json as gj
+    from graphtage.printer import Printer
+    d = gj.build_tree(pair[0]).diff(gj.build_tree(pair[1]))
+    buf = gt._KeepOpen()
+    pr = Printer(buf, ansi_color=color, quiet=True)
+    graphtage.FILETYPES_BY_TYPENAME[fmt].get_default_formatter().print(pr, d)
+    if color:
+        import colorama
+        colorama.deinit()
+    return buf.getvalue()
+
+
+def _sequence_job(job):
+    """In a process of its own: render pair A, then each other pair B (plain and in colour) followed by A again, with the same
+    output format: every rendering of A is identical - nothing about B is remembered by the formatter / printer singletons."""
+    fmt, ia = job
+    a = SEQ_PAIRS[ia]
+    try:
+        first = _render(fmt, a)
+    except Exception:
+        return []           # (whether this format can render such a tree at all is C13's business)
+    fails = []
+    try:
+        for ib, b in enumerate(SEQ_PAIRS):
+            if ib == ia or fails:
+                continue
+            for color in (False, True):
+                try:
+                    _render(fmt, b, color)
+                except Exception:
+                    pass
+                again = _render(fmt, a)
+                if again != first:
+                    fails.append({'what': f"{fmt} rendering of {a[0]!r} -> {a[1]!r} is {first!r} in a fresh process but {again!r} after "
+                                          f"{b[0]!r} -> {b[1]!r} was rendered{' in colour' if color else ''} in the same process",
+                                  'class': f'c07-output-depends-on-history:{fmt}'})
+                    break
+    except Exception as ex:
+        fails.append({'what': f"{type(ex).__name__}: {ex} rendering {a!r} as {fmt} after other documents", 'class': f'c07-exception:{type(ex).__name__}'})
+    for f in fails:
+        f['input'] = {'fmt': fmt, 'pair': list(a)}
+        f['replay'] = {'kind': 'sequence', 'job': list(job)}
+    return fails
+
+
 def witnesses(func_result, ob, repo_root, tier):
     seeds = list(range(0, 6))
     for idx in range(len(CORPUS)):
@@ -183,6 +243,9 @@ def replay(entry, repo_root):
         return f[0]['what'] if f else None
     if r.get('kind') == 'typedseed':
         f = _typed_seed_job((r['idx'], r['flags'], r['seeds'], repo_root))
+        return f[0]['what'] if f else None
+    if r.get('kind') == 'sequence':
+        f = [x for fs in pmap(_sequence_job, [tuple(r['job'])], repo_root, fresh=True) for x in fs]      # (own process)
         return f[0]['what'] if f else None
     if r.get('kind') == 'purity':
         f = _purity_job((r['a'], r['b'], r['opt']))
@@ -209,11 +272,13 @@ def bounded(tier, seed, repo_root):
     pj += [(('plist', rnd.choice(pdocs)), ('plist', rnd.choice(pdocs)), gt.OPTION_COMBOS[rnd.randrange(9)]) for _ in range(n_other)]
     pj += [(('pyobj', rnd.choice(docs)), ('pyobj', rnd.choice(docs)), gt.OPTION_COMBOS[rnd.randrange(9)]) for _ in range(n_other)]
     fails += [f for fs in pmap(_purity_job, pj, repo_root, job_timeout=60, on_timeout=timeout_failure('C07')) for f in fs]
+    sj = [(fmt, i) for fmt in ('json', 'json5', 'yaml', 'plist', 'xml', 'html', 'csv') for i in range(len(SEQ_PAIRS))]
+    fails += [f for fs in pmap(_sequence_job, sj, repo_root, job_timeout=60, on_timeout=timeout_failure('C07'), fresh=True) for f in fs]
     return [{
         'name': 'C07.hash-seeds-and-purity', 'bound': f"{len(CORPUS)} corpus pairs with 3-6 unshared keys x {len(FLAGSETS)} flag sets x "
         f"PYTHONHASHSEED in 0..{len(seeds) - 1} (subprocesses) + {len(tjobs)} pickle / XML / YAML / plist / CSV file pairs x modes x seeds; {len(pj)} document pairs (JSON, XML, CSV, plist wrapper, pydiff objects): structural and identity-level snapshots before/after diff()+print, two "
-        f"in-process repetitions",
-        'evaluations': (len(jobs) + len(tjobs)) * len(seeds) + len(pj) * 2, 'distinct_nontrivial': len(jobs) + len({(repr(j[0]), repr(j[1])) for j in pj}),
+        f"in-process repetitions; {len(sj)} render sequences A, B1, A, B2, A, ... ({len(SEQ_PAIRS)} document pairs x 7 output formats, each sequence in a process of its own; B plain and in colour)",
+        'evaluations': (len(jobs) + len(tjobs)) * len(seeds) + len(pj) * 2 + len(sj) * (1 + 4 * (len(SEQ_PAIRS) - 1)), 'distinct_nontrivial': len(jobs) + len({(repr(j[0]), repr(j[1])) for j in pj}),
         'exhaustive': False,
         'rule': 'file pair x flags -> byte-identical stdout and equal exit status across hash seeds; tree pair -> input trees '
                 'structurally and identity-wise unchanged by diff()/print (no node object replaced, re-classed or re-annotated), identical output on repetition',
